@@ -171,11 +171,16 @@ def concretise(c, rng, tier):
         if s['op'] == 'kill':
             if s['at'] in MARKER_AT:
                 s['p'] = {'kind': 'marker', 'm': MARKER_AT[s['at']]}
-            elif sweep is None:
-                sweep = {'step': j, 'kind': 'kill-sample', 'count': 1, 'seed': rng.randrange(1 << 30),
-                         'phases': list(SETPH if s['at'].startswith('storing') else EARLY)}
             else:
-                s['p'] = {'kind': 'marker', 'm': 'set_begin' if s['at'].startswith('storing') else 'get_begin'}
+                # the n-th write-class syscall of the call, not profiled: if the call makes fewer, it completes
+                first = j == 0 and c['mode'] == 'db'
+                if s['at'].startswith('storing'):
+                    n = rng.randrange(130, 175) if first else rng.randrange(1, 24)
+                else:
+                    n = rng.randrange(1, 130) if first else rng.randrange(1, 6)
+                s['p'] = {'kind': 'sys', 'sys': rng.choice(['pwrite64'] * 6 + ['fdatasync', 'unlink']), 'n': n}
+                if s['p']['sys'] != 'pwrite64':
+                    s['p']['n'] = 1 + n % (16 if first else 4)
         elif s['op'] == 'corrupt':
             s['p'] = {'fsel': rng.randrange(8), 'pos_pm': rng.choice([0, 1, 3, 10, 30, 100, 250, 500, 750, 900, 990, 999]),
                       'mask': rng.choice([1, 2, 4, 8, 16, 32, 64, 128, 255]), 'len': rng.choice([1, 1, 1, 4])}
@@ -359,7 +364,15 @@ def c17(tier, seed):
     q = tier == 'quick'
     try:
         rng = random.Random(seed)
-        models = run_models(run, tier)
+        reuse = os.environ.get('VERIF_C17_REUSE')     # development only: take the generated histories of an earlier run
+        if reuse:
+            import shutil
+            for n in os.listdir(reuse):
+                if n.startswith('gen-'):
+                    shutil.copy(os.path.join(reuse, n), run.path(n))
+            models = []
+        else:
+            models = run_models(run, tier)
         run.notes['model_checks'] = [{'what': m[0], 'expected': m[1], 'distinct_states': m[2], 'states_generated': m[3], 'wall_s': m[4]}
                                      for m in models]
         names = [n for n in os.listdir(run.work) if n.startswith('gen-') and n.endswith('.ndjson')]
@@ -386,7 +399,7 @@ def c17(tier, seed):
         pl.write_cases(order, cpath)
         run.notes['histories_selected'] = len(order)
         run.notes['sweeps'] = len(heavy)
-        deadline = time.time() + (100 if q else 1300)
+        deadline = time.time() + int(os.environ.get('VERIF_C17_DRIVE_S', '100' if q else '1300'))
         shards, reports, idx = judge(run, cpath, deadline)
         account(run, reports, idx, shards)
         run.assumptions = [
